@@ -22,7 +22,11 @@ type flusher interface {
 }
 
 func (f FlushComponent) Render(ctx context.Context, w io.Writer) (err error) {
-	if err = GetChildren(ctx).Render(ctx, w); err != nil {
+	// Take the children passed to this call out of the shared context value, like a generated
+	// component does, so that components nested in them do not receive them again.
+	children := GetChildren(ctx)
+	ctx = ClearChildren(ctx)
+	if err = children.Render(ctx, w); err != nil {
 		return err
 	}
 	switch w := w.(type) {
